@@ -376,11 +376,13 @@ RETCODE adfCreateHd ( struct AdfDevice * const               dev,
 					partList[i]->volType );
         if (dev->volList[i]==NULL) {
            for(j=0; j<i; j++) {
-               free( dev->volList[i] );
-/* pas fini */
+               free( dev->volList[j]->volName );
+               free( dev->volList[j] );
            }
            free(dev->volList);
+           dev->volList = NULL;
            (*adfEnv.eFct)("adfCreateHd : adfCreateVol() fails");
+           return RC_ERROR;
         }
         dev->volList[i]->blockSize = 512;
     }
